@@ -142,7 +142,7 @@ pub fn faults_of(text: &str) -> Vec<Fault> {
                 if target != a.value() {
                   out.push(Fault::Set(vr.start, vr.end, target, "retarget-href", asite.clone()));
                   k += 1;
-                  if k >= 12 {
+                  if k >= 64 {
                     break;
                   }
                 }
